@@ -117,6 +117,75 @@ def order_space(w, tier):
                 yield op, tuple(A[i] for i in ms)
 
 
+def twin_pairs(w):
+    """operand pairs that differ in exactly one field of one node (the ordering key must see every field)"""
+    if w < 16:
+        return []
+    a, b = g.ID('a', w), g.ID('b', w)
+    one = g.I(w, 1)
+    ad = g.addr_of(w)
+    T = [(g.COND(g.SL(a, 0, 4), b, one), g.COND(g.SL(a, 0, 8), b, one)),                    # slice stop
+         (g.COND(g.SL(a, 0, 4), b, one), g.COND(g.SL(a, 1, 5), b, one)),                    # slice start
+         (g.COND(g.MEM(ad, 8), b, one), g.COND(g.MEM(ad, 16), b, one)),                     # memory size
+         (g.COND(g.MEM(ad, 8, g.ID('ds', 16)), b, one), g.COND(g.MEM(ad, 8, g.ID('fs', 16)), b, one)),   # segment
+         (g.MEM(ad, w), g.MEM(g.OP('+', ad, g.I(32, 4)), w)),                                # address
+         (g.COND(a, b, one), g.COND(a, one, b)),                                             # conditional arms
+         (g.COND(a, b, one), g.COND(b, b, one)),                                             # condition
+         (g.CO((g.SL(a, 0, 4), 0, 4), (g.SL(b, 4, w), 4, w)), g.CO((g.SL(a, 0, 8), 0, 8), (g.SL(b, 8, w), 8, w))),   # compose bounds
+         (g.CO((g.SL(a, 0, 4), 0, 4), (g.SL(b, 4, w), 4, w)), g.CO((g.SL(b, 0, 4), 0, 4), (g.SL(a, 4, w), 4, w))),   # compose parts
+         (g.OP('>>', a, b), g.OP('a>>', a, b)), (g.OP('>>', a, b), g.OP('>>', b, a)),        # operator name / argument order
+         (g.OP('<<<', a, one), g.OP('>>>', a, one)),
+         (g.OP('<<', a, g.SL(b, 0, 8)), g.OP('<<', a, g.SL(b, 8, 16))),                      # slice inside a shift count
+         (g.OP('<<', a, g.CO((g.SL(b, 0, 8), 0, 8), (g.I(w - 8, 0), 8, w))), g.OP('<<', a, g.CO((g.SL(b, 0, 4), 0, 4), (g.I(w - 4, 0), 4, w))))]
+    if 2 * w <= 64:
+        co = g.CO((a, 0, w), (b, w, 2 * w))
+        T.append((g.SL(co, 4, 4 + w), g.SL(co, 8, 8 + w)))
+    return T
+
+
+def contexts(w):
+    """one-hole contexts: an operand order below any node must not show in the simplified form"""
+    a, b = g.ID('a', w), g.ID('b', w)
+    one = g.I(w, 1)
+    C = [('cond.src1', lambda t: g.COND(a, t, b)), ('cond.src2', lambda t: g.COND(a, b, t)), ('cond.cond', lambda t: g.COND(t, a, one)),
+         ('shift.count', lambda t: g.OP('<<', b, t)), ('shift.value', lambda t: g.OP('>>', t, one)), ('neg', lambda t: g.OP('-', t)),
+         ('other-op', lambda t: g.OP('*', t, b) if w > 1 else g.OP('&', t, b))]
+    if w >= 8:
+        C.append(('slice', lambda t: g.SL(t, 0, w // 2)))
+        C.append(('compose', lambda t: g.CO((g.SL(t, 0, w // 2), 0, w // 2), (g.SL(b, w // 2, w), w // 2, w))))
+    if w == 32:
+        C.append(('mem.address', lambda t: g.MEM(t, 8)))
+        C.append(('mem.address+4', lambda t: g.MEM(g.OP('+', t, g.I(32, 4)), 32)))
+    return C
+
+
+def context_case(part, op, x, y, w, H):
+    v1, v2 = g.OP(op, x, y), g.OP(op, y, x)
+    cases = [(nm, f(v1), f(v2)) for nm, f in contexts(w)]
+    a = g.ID('a', w)
+    cases.append(('cond.both-arms', g.COND(a, v1, v2), g.COND(a, v1, v1)))
+    cases.append(('cond.both-arms', g.COND(a, v2, v1), g.COND(a, v1, v1)))
+    for nm, t1, t2 in cases:
+        try:
+            irsem.width(t1, True)
+        except Exception:
+            continue
+        try:
+            with core.watchdog(5):
+                s1, s2 = simp_fresh(t1, H), simp_fresh(t2, H)
+                r1, r2 = (str(s1), irsem.to_neutral(s1)), (str(s2), irsem.to_neutral(s2))
+        except Exception as ex:
+            part.skip('simplifier-raises:%s' % type(ex).__name__)
+            continue
+        part.n += 1
+        if r1 != r2:
+            part.violation('law=order-in-context context=%s op=%s' % (nm, op),
+                           'expr_simp(%s) = %s but expr_simp(%s) = %s' % (irsem.show(t1), r1[0], irsem.show(t2), r2[0]),
+                           {'law': 'context', 't1': t1, 't2': t2}, irsem.size_nodes(t1))
+        else:
+            part.keys.add(core.h64(('c', repr(t1), repr(t2))))
+
+
 def order_case(part, op, ms, H):
     forms = set()
     variants = []
@@ -269,6 +338,21 @@ def shard(s, ns, tier, seed):
             if k % ns != s:
                 continue
             order_case(part, op, ms, H)
+        # tie twins: each pair alone and with a third operand, through the same permutation x bracketing law
+        a = g.ID('a', w)
+        for op in g.ASSOC:
+            for t1, t2 in twin_pairs(w):
+                for ms in ((t1, t2), (t1, t2, a), (t1, t1, t2)):
+                    k += 1
+                    if k % ns == s:
+                        order_case(part, op, ms, H)
+        # operand order below another node
+        A = operand_alphabet(w)
+        for op in g.ASSOC:
+            for x, y in itertools.combinations(A, 2):
+                k += 1
+                if k % ns == s:
+                    context_case(part, op, x, y, w, H)
     return part
 
 
@@ -333,6 +417,12 @@ def replay(wt):
         idem_case(part, tup(wt['tree']), H)
     elif wt.get('law') == 'order':
         order_case(part, wt['op'], tuple(tup(x) for x in wt['operands']), H)
+    elif wt.get('law') == 'context':
+        t1, t2 = tup(wt['t1']), tup(wt['t2'])
+        s1, s2 = simp_fresh(t1, H), simp_fresh(t2, H)
+        if (str(s1), irsem.to_neutral(s1)) != (str(s2), irsem.to_neutral(s2)):
+            return True, 'expr_simp(%s) = %s but expr_simp(%s) = %s' % (irsem.show(t1), s1, irsem.show(t2), s2)
+        return False, 'ok'
     else:
         a = run_seed_job((wt['job'], wt['seeds'][0]))
         b = run_seed_job((wt['job'], wt['seeds'][1]))
